@@ -1,3 +1,4 @@
+\* measured: 25,319 distinct / 261,662 generated states, depth 11
 SPECIFICATION Spec
 CONSTANTS
   Lens = {3, 4}
